@@ -343,7 +343,7 @@ func (o *Obligation) emit(p *Prelude, noCOI bool, lean bool) string {
 	}
 	var sb strings.Builder
 	sb.WriteString("(set-option :produce-models true)\n(set-logic ALL)\n")
-	sb.WriteString("(declare-datatypes ((Slice 0)) (((mk-slice (s-arr Int) (s-off Int) (s-len Int)))))\n")
+	sb.WriteString("(declare-datatypes ((Slice 0)) (((mk-slice (s-arr Int) (s-off Int) (s-len Int) (s-cap Int)))))\n")
 	vars := make([]*Term, 0, len(need))
 	for v := range need {
 		vars = append(vars, v)
